@@ -746,36 +746,41 @@ func sectionRace(rng *vh.Rng) {
 						res.SpecFail(vh.SpecFailure{Section: "race", Kind: "extra-event", Input: in, Impl: short(runsOf(got)), Spec: "subset of the range, stored order", What: bad})
 					} else if missing > 0 {
 						finding := ""
-						if onlyRecent {
-							finding = "F46" // every hidden event belongs to the last two Write calls: readable, hull/index update pending
-						} else if onlyLastChunk {
-							// F53: the newest chunk's index entry was forgotten by a syncChunks working on an older chunk list; later
-							// notifications re-created it from their own batches only. Some schedule of the model (forget the chunk at a
-							// batch boundary) yields exactly this outcome iff, in each of the newest chunks, the hidden events are a PREFIX of
-							// the chunk's in-range events: nothing that is delivered from a chunk precedes a hidden event of the same chunk
-							prefix, seenDelivered := true, false
-							nextChunk := 0
-							for s := lastChunkStart; s < len(snapshot); s++ {
-								for nextChunk < len(chunkStarts) && chunkStarts[nextChunk] <= s {
-									if chunkStarts[nextChunk] == s {
-										seenDelivered = false // a new chunk starts: the prefix rule holds chunk by chunk
-									}
-									nextChunk++
+						// both defects are repaired (a7caf30, d4bea54): a loss of one of their free-running classes is tagged with the old
+						// id, the check then reports that the defect is back. F53's class (per chunk a PREFIX of the in-range events of one
+						// of the newest chunks is hidden) is tested first: in a young chunk it can coincide with F46's (a SUFFIX of the
+						// stream: only the last two Write calls)
+						prefix, seenDelivered := onlyLastChunk, false
+						nextChunk := 0
+						for s := lastChunkStart; s < len(snapshot) && prefix; s++ {
+							for nextChunk < len(chunkStarts) && chunkStarts[nextChunk] <= s {
+								if chunkStarts[nextChunk] == s {
+									seenDelivered = false // a new chunk starts: the prefix rule holds chunk by chunk
 								}
-								if !inB(snapshot[s], lo, hi) {
-									continue
-								}
-								if have[s] {
-									seenDelivered = true
-								} else if seenDelivered {
-									prefix = false
-								}
+								nextChunk++
 							}
-							if prefix {
-								finding = "F53"
+							if !inB(snapshot[s], lo, hi) {
+								continue
 							}
-							in["hidden_is_prefix_of_last_chunk"] = prefix
+							if have[s] {
+								seenDelivered = true
+							} else if seenDelivered {
+								prefix = false
+							}
 						}
+						startsAtChunk := false
+						for _, cs := range chunkStarts {
+							if len(missed) > 0 && cs == missed[0] {
+								startsAtChunk = true
+							}
+						}
+						switch {
+						case prefix && (startsAtChunk || !onlyRecent):
+							finding = "F53"
+						case onlyRecent:
+							finding = "F46"
+						}
+						in["hidden_is_prefix_of_a_newest_chunk"] = prefix
 						in["only_last_chunk"], in["last_chunk_start"], in["recent_start"] = onlyLastChunk, lastChunkStart, recent
 						if len(missed) > 0 {
 							in["missed"] = fmt.Sprint(missed[0], "…", missed[len(missed)-1])
